@@ -89,6 +89,10 @@ def choose_tolerancing(case, o):
             # sweep from nominal to a radius smaller than the semi-aperture: the marginal ray misses
             tiny = math.copysign(0.3 * epd, nom)
             vs["sampler"] = {"kind": "range", "a": nom, "b": tiny, "steps": 3}
+        elif case.get("near_nominal") and i == 0:
+            # a one-sided sweep that starts practically (not exactly) at nominal: the first trial has almost
+            # nothing to compensate, the later ones do
+            vs["sampler"] = {"kind": "range", "a": nom + 1e-8 * max(1.0, abs(nom)), "b": nom + rnd.choice([-1, 1]) * d, "steps": 3}
         elif kind == "scalar":
             vs["sampler"] = {"kind": "scalar", "a": nom if rnd.random() < 0.4 else nom + rnd.uniform(-d, d)}
         elif kind == "range":
@@ -158,6 +162,38 @@ def rederive(case, nominal_dict, pvals, applied, cvals):
         data["optic"] = o
         try:
             out.append(R.fnum(Operand(op["type"], 0.0, 1.0, data).value))
+        except Exception:
+            out.append(float("nan"))
+    return out
+
+
+def recompensate(case, nominal_dict, pvals, applied):
+    """Operand values after "the same compensation": a fresh copy of the nominal lens, a fresh
+    Tolerancing object with the same operands and compensators, the recorded perturbation values
+    applied through scalar samplers, apply_compensators() run afresh, operands evaluated."""
+    from optiland.optic import Optic
+    from optiland.tolerancing.core import Tolerancing
+    from optiland.tolerancing.perturbation import ScalarSampler
+    o = Optic.from_dict(copy.deepcopy(nominal_dict))
+    tol = Tolerancing(o, method=case.get("method", "generic"), tol=case.get("tol", 1e-5))
+    for op in case["ops"]:
+        data = dict(op["data"])
+        data["optic"] = o
+        tol.add_operand(op["type"], data)
+    for vs, v, ap in zip(case["perts"], pvals, applied):
+        if ap:
+            tol.add_perturbation(vs["type"], ScalarSampler(v), **R.var_kwargs(vs))
+    for vs in case["comps"]:
+        tol.add_compensator(vs["type"], **R.var_kwargs(vs))
+    for p in tol.perturbations:
+        p.apply()
+    with warnings.catch_warnings():
+        warnings.simplefilter("ignore")
+        G.quiet(tol.apply_compensators)
+    out = []
+    for v in tol.evaluate():
+        try:
+            out.append(R.fnum(v))
         except Exception:
             out.append(float("nan"))
     return out
@@ -233,8 +269,15 @@ def session(tr, case, number):
         except Exception as ex:
             re_ops = [float("nan")] * len(ops)
             missing = True
+        re_comp = []
+        if case["comps"] and not missing and all(math.isfinite(v) for v in pv):
+            try:
+                re_comp = recompensate(case, nominal_dict, pv, applied)
+            except Exception:
+                re_comp = [float("nan")] * len(ops)
         tr.emit("row", i=i, which=which, pv=[dy(v) for v in pv], ops=[dy(v) for v in ops],
-                cv=[dy(v) for v in cv], re_ops=[dy(v) for v in re_ops], missing=bool(missing))
+                cv=[dy(v) for v in cv], re_ops=[dy(v) for v in re_ops], missing=bool(missing),
+                re_comp=[dy(v) for v in re_comp])
     expected = sum(vs["sampler"]["steps"] for vs in case["perts"]) if analysis == "sens" else case["iters"]
     tr.emit("end", exc=exc, proj=R.proj_dy(o), zmax=dy(R.zmax(o)), expected_rows=expected)
     exc2 = ""
